@@ -1403,6 +1403,17 @@ def dict_entries(S: Sem, e: ast.AST, at: int, resolve: bool = True) -> Optional[
                     return None
                 out.append(DictEntry(ast.Constant(value=k.arg), res(k.value, a), list(loops), list(conds), node, k.arg))
             return out
+        if isinstance(v, (ast.GeneratorExp, ast.ListComp)) and isinstance(v.elt, ast.Tuple) and len(v.elt.elts) == 2:
+            # an iterable of (key, value) pairs, as accepted by dict(...) and dict.update(...)
+            lp = list(loops) + [(g.target, g.iter) for g in v.generators]
+            cd = list(conds) + [c for g in v.generators for c in g.ifs]
+            bound = {n.id for g in v.generators for n in ast.walk(g.target) if isinstance(n, ast.Name)}
+            saved = S.keep_names
+            S.keep_names = saved | bound
+            try:
+                return [DictEntry(res(v.elt.elts[0], a), res(v.elt.elts[1], a), lp, cd, node)]
+            finally:
+                S.keep_names = saved
         if isinstance(v, ast.DictComp):
             lp = list(loops) + [(g.target, g.iter) for g in v.generators]
             cd = list(conds) + [c for g in v.generators for c in g.ifs]
